@@ -81,7 +81,7 @@ def build_component(comp, workdir):
     else:
         src_tu = src
     try:
-        text, meta = cxx2c.extract(src_tu, [os.path.join(REPO, 'include')], DEFS, comp.symbolic, extra)
+        text, meta = cxx2c.extract(src_tu, [os.path.join(REPO, 'include'), REPO], DEFS, comp.symbolic, extra)
     except cxx2c.ExtractError as ex:
         raise Infra('extraction of %s failed: %s' % (comp.source, ex))
     text, tagmap, missing, missing_l = specmod.splice(text, comp)
